@@ -248,7 +248,7 @@ Proof.
 Qed.
 
 (* array_from_file gives the element array, except for the early returns of the read path *)
-Definition whole_ok (mm : bool) (shape : list Z) : Prop := mm = true \/ (shape <> [] /\ prod shape <> 0).
+Definition whole_ok (mm : bool) (shape : list Z) : Prop := mm = true \/ shape <> [].
 
 Lemma array_from_file_ok rd file mm shape w off : reader_ok rd file -> 0 < w -> 0 <= off ->
   Forall (fun n => 0 <= n) shape -> off + w * prod shape <= zlen file -> whole_ok mm shape ->
@@ -259,9 +259,12 @@ Proof.
   unfold array_from_file. cbv zeta. rewrite !Hr, !Hb. cbn [bind]. rewrite !Hlen, !Z.eqb_refl.
   assert (Hres : elems_of w b = array_elems file shape w off) by (subst b; reflexivity).
   destruct mm; [now rewrite Hres|].
-  destruct Hok as [Hm|[Hne Hnz]]; [discriminate|].
+  destruct Hok as [Hm|Hne]; [discriminate|].
   replace (zlen shape =? 0) with false by (destruct shape; [contradiction|unfold zlen; cbn [length]; lia]).
-  replace (prod shape * w =? 0) with false by nia. cbn [orb]. now rewrite Hres.
+  destruct (prod shape * w =? 0) eqn:E0; [|now rewrite Hres].
+  (* zero-size: np.zeros(shape) has no elements, like the stored array *)
+  assert (Hz : prod shape = 0) by nia. f_equal. f_equal.
+  unfold array_elems. rewrite Hz. reflexivity.
 Qed.
 
 (* ArrayProxy._get_unscaled on a valid index: NumPy indexing of the element array *)
@@ -1004,7 +1007,7 @@ Qed.
 Theorem mmap_independent rd file shape w off o f ix c :
   reader_ok rd file -> 0 < w -> 0 <= off -> canonical_slicers true ix shape = Ok c -> ix_valid shape c ->
   off + w * prod shape <= zlen file ->
-  (cidx_list_eqb c (all_none (length shape)) = true -> shape <> [] /\ prod shape <> 0) ->
+  (cidx_list_eqb c (all_none (length shape)) = true -> shape <> []) ->
   ap_getitem rd scale true shape w off o f ix = ap_getitem rd scale false shape w off o f ix.
 Proof.
   intros Hr Hw Ho Hc Hv Hfit Hnz.
@@ -1014,6 +1017,381 @@ Proof.
   unfold unscaled_hyps. repeat split; try assumption. intros E. right. now apply Hnz.
 Qed.
 End Asarray.
+
+(* ====================================================================================
+   Part 10b: PAR/REC — records re-ordered by the sorted slice indices, per-record factors *)
+Lemma zseq_cons n : 0 <= n -> zseq (n + 1) = 0 :: map (fun k => 1 + k) (zseq n).
+Proof. intros H. replace (n + 1) with (1 + n) by lia. now rewrite (zseq_add 1 n) by lia. Qed.
+
+Lemma diffs_seq : forall l a, diffs_are_1 (a :: l) = true ->
+  a :: l = map (fun k => a + k) (zseq (zlen (a :: l))).
+Proof.
+  induction l as [|b r IH]; intros a H.
+  - change (zseq (zlen [a])) with [0]. cbn [map]. f_equal. lia.
+  - cbn [diffs_are_1] in H. apply andb_true_iff in H. destruct H as [H1 H2].
+    replace (zlen (a :: b :: r)) with (zlen (b :: r) + 1) by (unfold zlen; cbn [length]; lia).
+    rewrite zseq_cons by apply zlen_nonneg. cbn [map]. f_equal; [lia|].
+    rewrite map_map. rewrite (IH b H2) at 1. apply map_ext. intros; lia.
+Qed.
+
+Lemma zseq_take_drop a m N : 0 <= a -> 0 <= m -> a + m <= N ->
+  Model.take m (Model.drop a (zseq N)) = map (fun k => a + k) (zseq m).
+Proof.
+  intros Ha Hm HN. replace N with (a + (N - a)) by lia. rewrite (zseq_add a (N - a)) by lia.
+  unfold Model.take, Model.drop.
+  assert (La : length (zseq a) = Z.to_nat a) by (pose proof (zseq_length a Ha); lia).
+  rewrite skipn_app, La, Nat.sub_diag, skipn_all2 by lia. cbn [skipn app].
+  replace (N - a) with (m + (N - a - m)) by lia. rewrite (zseq_add m (N - a - m)) by lia.
+  rewrite map_app.
+  assert (Lm : length (map (fun k => a + k) (zseq m)) = Z.to_nat m)
+    by (rewrite map_length; pose proof (zseq_length m Hm); lia).
+  rewrite firstn_app, <- Lm, Nat.sub_diag, firstn_all. cbn [firstn]. now rewrite app_nil_r.
+Qed.
+
+Lemma slab_map_zseq {A} (g : Z -> A) m N i : 0 <= m -> 0 <= i -> m * i + m <= N ->
+  slab m (map g (zseq N)) i = map g (map (fun k => m * i + k) (zseq m)).
+Proof.
+  intros Hm Hi HN. unfold slab, Model.take, Model.drop. rewrite skipn_map, firstn_map.
+  f_equal. apply (zseq_take_drop (m * i) m N); nia.
+Qed.
+
+Lemma zlen_flat_map_in {A B} (f : A -> list B) m l : (forall x, In x l -> zlen (f x) = m) ->
+  zlen (flat_map f l) = m * zlen l.
+Proof.
+  induction l as [|x l IH]; intros H; [unfold zlen; cbn; lia|]. cbn [flat_map].
+  unfold zlen in *. rewrite app_length, Nat2Z.inj_add, H by (left; reflexivity).
+  rewrite IH by (intros y Hy; apply H; now right). cbn [length]. lia.
+Qed.
+
+Section Parrec.
+Context {F R : Type}.
+Variable scale : F -> list Z -> R.
+Variable dF : F.
+Variable dR : R.
+
+Definition parrec_raw (file : list Z) (shape : list Z) (nrec : Z) (ind : list Z) (w : Z) : list (list Z) :=
+  flat_map (slab (prod (firstn 2 shape)) (array_elems file (firstn 2 shape ++ [nrec]) w 0)) ind.
+Definition parrec_full (shape : list Z) (ind : list Z) (facs : list F) (raw : list (list Z)) : list R :=
+  zipw scale (bcast dF shape (prod (firstn 2 shape)) (map (fun i => nth (Z.to_nat i) facs dF) ind)) raw.
+
+Definition parrec_hyps rd file (mm : bool) shape nrec (ind : list Z) w (ix : list idx) c : Prop :=
+  reader_ok rd file /\ 0 < w /\ canonical_slicers true ix shape = Ok c /\ ix_valid shape c
+  /\ 0 <= nrec /\ w * (prod (firstn 2 shape) * nrec) <= zlen file
+  /\ Forall (fun i => 0 <= i < nrec) ind /\ prod shape = prod (firstn 2 shape) * zlen ind
+  /\ whole_ok mm (firstn 2 shape ++ [nrec]) /\ (ix = [] \/ ind <> []).
+
+Lemma Forall_firstn {A} (P : A -> Prop) n l : Forall P l -> Forall P (firstn n l).
+Proof.
+  revert l. induction n as [|n IH]; intros l H; [constructor|].
+  destruct H as [|x l Hx Hl]; [constructor|]. cbn [firstn]. constructor; [assumption|now apply IH].
+Qed.
+
+Lemma parrec_unscaled_spec rd file mm shape nrec ind w ix c : parrec_hyps rd file mm shape nrec ind w ix c ->
+  parrec_unscaled rd mm shape nrec ind w ix = Ok (np_index [] OrdF shape c (parrec_raw file shape nrec ind w))
+  /\ zlen (parrec_raw file shape nrec ind w) = prod shape.
+Proof.
+  intros (Hr & Hw & Hc & Hv & Hn & Hfit & Hind & Hp & Hok & Hne).
+  pose proof (ix_valid_shape_nonneg c shape Hv) as Hs.
+  set (m := prod (firstn 2 shape)) in *.
+  assert (Hm : 0 <= m) by (apply prod_nonneg; now apply Forall_firstn).
+  assert (Hrs : Forall (fun n => 0 <= n) (firstn 2 shape ++ [nrec]))
+    by (apply Forall_app; split; [now apply Forall_firstn|repeat constructor; assumption]).
+  assert (Hpr : prod (firstn 2 shape ++ [nrec]) = m * nrec)
+    by (rewrite prod_app; cbn [prod fold_right]; fold m; lia).
+  assert (Hfit' : 0 + w * prod (firstn 2 shape ++ [nrec]) <= zlen file) by (rewrite Hpr; lia).
+  set (rec := array_elems file (firstn 2 shape ++ [nrec]) w 0).
+  assert (Hrec : rec = map (fun i => elem_bytes file 0 w (w * i)) (zseq (m * nrec)))
+    by (unfold rec; rewrite array_elems_spec by (try assumption; lia); now rewrite Hpr).
+  assert (Hlen : zlen (parrec_raw file shape nrec ind w) = prod shape).
+  { unfold parrec_raw. fold m. fold rec. rewrite (zlen_flat_map_in _ m); [lia|].
+    intros i Hi. rewrite Forall_forall in Hind. specialize (Hind i Hi).
+    rewrite Hrec, slab_map_zseq by nia. rewrite !zlen_map. now apply zlen_zseq. }
+  split; [|exact Hlen].
+  assert (Hfull : (u <- array_from_file rd mm (firstn 2 shape ++ [nrec]) w 0 ;;
+                   if negb (forallb (fun i => (0 <=? i) && (i <? nrec)) ind) then Err EIndex
+                   else if negb (prod shape =? m * zlen ind) then Err EValue
+                   else Ok (shape, flat_map (slab m (snd u)) ind))
+                  = Ok (shape, parrec_raw file shape nrec ind w)).
+  { rewrite (array_from_file_ok rd file) by (try assumption; lia). cbn [bind snd].
+    replace (forallb (fun i => (0 <=? i) && (i <? nrec)) ind) with true
+      by (symmetry; apply forallb_forall; intros i Hi; rewrite Forall_forall in Hind; specialize (Hind i Hi); lia).
+    cbn [negb]. replace (prod shape =? m * zlen ind) with true by lia. reflexivity. }
+  unfold parrec_unscaled. fold m. destruct ix as [|i0 ixr].
+  - rewrite Hfull. rewrite canonical_empty in Hc. inversion Hc. subst c. f_equal. cbn [np_index].
+    symmetry. now apply np_index_F_all_none.
+  - destruct Hne as [Hne|Hne]; [discriminate|]. destruct ind as [|a ir]; [contradiction|].
+    destruct (negb (a =? 0) || negb (diffs_are_1 (a :: ir))) eqn:E.
+    + rewrite Hfull. cbn [bind snd]. rewrite Hc. reflexivity.
+    + apply orb_false_iff in E. destruct E as [E1 E2]. apply negb_false_iff in E1, E2.
+      assert (a = 0) by lia. subst a.
+      pose proof (diffs_seq ir 0 E2) as Hseq. set (K := zlen (0 :: ir)) in *.
+      assert (HK : 1 <= K) by (unfold K, zlen; cbn [length]; lia).
+      assert (HKn : K <= nrec).
+      { assert (Hin : In (K - 1) (0 :: ir)).
+        { rewrite Hseq. apply in_map_iff. exists (K - 1). split; [lia|]. apply zseq_In. lia. }
+        rewrite Forall_forall in Hind. specialize (Hind _ Hin). lia. }
+      rewrite (fileslice_elems rd file (i0 :: ixr) shape w 0 OrdF c) by (try assumption; try lia; nia).
+      f_equal. f_equal. unfold parrec_raw. fold m. fold rec. fold K in Hp.
+      rewrite array_elems_spec by (try assumption; try lia; nia). rewrite Hp.
+      rewrite Hseq. rewrite (map_ext (fun k => 0 + k) (fun k => k)) by (intros; lia). rewrite map_id.
+      rewrite Hrec.
+      rewrite (flat_map_ext_in' _ (fun i => map (fun i0 => elem_bytes file 0 w (w * i0)) (map (fun k => m * i + k) (zseq m)))).
+      2:{ intros i Hi. apply zseq_In in Hi. apply slab_map_zseq; nia. }
+      rewrite <- (map_flat_map (fun i0 => elem_bytes file 0 w (w * i0))). f_equal.
+      pose proof (block_split 0 m K Hm ltac:(lia)) as B.
+      rewrite (map_ext (fun k => 0 + k) (fun k => k)) in B by (intros; lia). rewrite map_id in B.
+      rewrite B. apply flat_map_ext. intros j. apply map_ext. intros; lia.
+Qed.
+
+Theorem parrec_getitem_spec rd file mm shape nrec ind w facs ix c :
+  parrec_hyps rd file mm shape nrec ind w ix c ->
+  parrec_getitem rd scale dF mm shape nrec ind w facs ix
+  = Ok (np_index dR OrdF shape c (parrec_full shape ind facs (parrec_raw file shape nrec ind w))).
+Proof.
+  intros H. destruct (parrec_unscaled_spec rd file mm shape nrec ind w ix c H) as [Hu Hl].
+  destruct H as (Hr & Hw & Hc & Hv & _). unfold parrec_getitem. rewrite Hu. cbn [bind]. rewrite Hc. cbn [bind np_index].
+  unfold parrec_full.
+  rewrite (np_index_F_zipw scale dF [] dR)
+    by (try assumption; apply zlen_bcast; apply prod_nonneg; now apply (ix_valid_shape_nonneg c)).
+  unfold np_index_F at 1 2. cbn [fst snd]. now rewrite zlist_eqb_refl.
+Qed.
+End Parrec.
+
+(* ====================================================================================
+   Part 10c: MINC — C order; image-min/-max indexed by the leading entries of the index and
+   broadcast over the trailing ones *)
+Lemma split_real_gen : forall c A n B, ix_valid (A ++ n :: B) c ->
+  exists pre x post, split_real (length A) c = Some (pre, x, post) /\ c = pre ++ x :: post
+    /\ ix_valid A pre /\ ix_valid (n :: B) (x :: post) /\ x <> CNew.
+Proof.
+  induction c as [|y c IH]; intros A n B Hv.
+  - cbn in Hv. destruct A; discriminate.
+  - destruct y as [k|s|].
+    + destruct A as [|m sh].
+      * exists [], (CInt k), c. cbn [length split_real app]. split; [reflexivity|]. split; [reflexivity|]. split; [reflexivity|]. split; [exact Hv|discriminate].
+      * cbn [app ix_valid] in Hv. destruct Hv as (Hm & Hk & Hv).
+        destruct (IH sh n B Hv) as (pre & x & post & Hs & Hc & Hp & Hq & Hx).
+        exists (CInt k :: pre), x, post. cbn [length split_real]. rewrite Hs. subst c.
+        split; [reflexivity|]. split; [reflexivity|]. split; [cbn [ix_valid]; auto|]. split; assumption.
+    + destruct A as [|m sh].
+      * exists [], (CSl s), c. cbn [length split_real app]. split; [reflexivity|]. split; [reflexivity|]. split; [reflexivity|]. split; [exact Hv|discriminate].
+      * cbn [app ix_valid] in Hv. destruct Hv as (Hm & Hk & Hv).
+        destruct (IH sh n B Hv) as (pre & x & post & Hs & Hc & Hp & Hq & Hx).
+        exists (CSl s :: pre), x, post. cbn [length split_real]. rewrite Hs. subst c.
+        split; [reflexivity|]. split; [reflexivity|]. split; [cbn [ix_valid]; auto|]. split; assumption.
+    + cbn [ix_valid] in Hv. destruct (IH A n B Hv) as (pre & x & post & Hs & Hc & Hp & Hq & Hx).
+      exists (CNew :: pre), x, post. cbn [split_real]. rewrite Hs. subst c.
+      split; [reflexivity|]. split; [reflexivity|]. split; [exact Hp|]. split; assumption.
+Qed.
+
+Lemma np_index_F_split {E} (d : E) A B ixA ixB (L : list E) : ix_valid A ixA ->
+  snd (np_index_F d (A ++ B) (ixA ++ ixB) L)
+  = flat_map (fun ob => map (fun oa => nth (Z.to_nat (oa + prod A * ob)) L d) (offs A ixA 1)) (offs B ixB 1).
+Proof.
+  intros Ha. unfold np_index_F. cbn [snd]. rewrite offs_app by assumption.
+  replace (1 * prod A) with (prod A * 1) by lia. rewrite offs_scale.
+  rewrite flat_map_map, map_flat_map. apply flat_map_ext. intros ob. now rewrite map_map.
+Qed.
+
+Lemma offs_leading_new : forall (l : list cidx) B ixB strd,
+  offs B (map (fun _ => CNew) l ++ ixB) strd = offs B ixB strd.
+Proof. induction l as [|y l IH]; intros; [reflexivity|]. cbn [map app offs]. apply IH. Qed.
+
+Lemma np_shape_leading_new : forall (l : list cidx) B ixB,
+  np_shape B (map (fun _ => CNew) l ++ ixB) = repeat 1 (length l) ++ np_shape B ixB.
+Proof. induction l as [|y l IH]; intros; [reflexivity|]. cbn [map app np_shape length repeat]. f_equal. apply IH. Qed.
+
+Lemma rev_map_const {X} (y : cidx) (l : list X) : rev (map (fun _ => y) l) = map (fun _ => y) (rev l).
+Proof. now rewrite map_rev. Qed.
+
+Lemma np_shape_length : forall ix A, length (np_shape A ix) = length (filter (fun y => negb (is_cint y)) ix).
+Proof.
+  induction ix as [|y ix IH]; intros A; [reflexivity|].
+  destruct y; cbn [np_shape filter is_cint negb length]; now rewrite IH.
+Qed.
+
+Lemma filter_rev_length {X} (p : X -> bool) l : length (filter p (rev l)) = length (filter p l).
+Proof.
+  induction l as [|x l IH]; [reflexivity|]. cbn [rev filter]. rewrite filter_app, app_length, IH. cbn [filter].
+  destruct (p x); cbn [length]; lia.
+Qed.
+
+(* a block-wise constant first argument against a concatenation of equal-size blocks *)
+Lemma zipw_blocks {X Y W} (f : X -> Y -> W) (G : Z -> X) (h : Z -> list Y) (J : list Z) T (dX : X) (dY : Y) (dW : W) :
+  0 <= T -> (forall j, zlen (h j) = T) ->
+  zipw f (map (fun p => G (p / T)) (zseq (T * zlen J))) (flat_map h J)
+  = flat_map (fun pj => map (f (G (fst pj))) (h (snd pj))) (enumerate J).
+Proof.
+  intros HT Hh.
+  assert (L2 : zlen (flat_map h J) = T * zlen J) by now apply zlen_flat_map_const.
+  assert (L1 : zlen (map (fun p => G (p / T)) (zseq (T * zlen J))) = T * zlen J)
+    by (rewrite zlen_map; apply zlen_zseq; pose proof (zlen_nonneg J); nia).
+  assert (LE : zlen (enumerate J) = zlen J).
+  { unfold enumerate, zlen. rewrite combine_length. pose proof (zseq_length (Z.of_nat (length J)) ltac:(lia)). lia. }
+  assert (L3 : zlen (flat_map (fun pj => map (f (G (fst pj))) (h (snd pj))) (enumerate J)) = T * zlen J).
+  { rewrite (zlen_flat_map_const _ T) by (intros; rewrite zlen_map; apply Hh). now rewrite LE. }
+  apply nth_ext with (d := dW) (d' := dW).
+  - unfold zlen in *. rewrite zipw_length; lia.
+  - intros k Hk. unfold zlen in *. rewrite zipw_length in Hk by lia.
+    assert (Hp : 0 <= Z.of_nat k < T * Z.of_nat (length J)) by lia.
+    assert (HT' : 0 < T) by nia.
+    pose proof (Z.mod_pos_bound (Z.of_nat k) T HT') as Hm.
+    pose proof (Z.div_mod (Z.of_nat k) T ltac:(lia)) as Hdm.
+    assert (Hq : 0 <= Z.of_nat k / T < Z.of_nat (length J))
+      by (split; [apply Z.div_pos; lia|apply Z.div_lt_upper_bound; lia]).
+    rewrite (nth_zipw f _ _ k dX dY dW) by lia.
+    rewrite (nth_map_in _ (zseq (T * Z.of_nat (length J))) k dX 0)
+      by (pose proof (zseq_length (T * Z.of_nat (length J)) ltac:(lia)); unfold zlen; lia).
+    replace k with (Z.to_nat (Z.of_nat k)) at 1 by lia. unfold zlen. rewrite nth_zseq by lia.
+    set (i := Z.to_nat (Z.of_nat k mod T)). set (j := Z.to_nat (Z.of_nat k / T)).
+    assert (Ek : k = (i + Z.to_nat T * j)%nat) by (unfold i, j; nia).
+    rewrite Ek at 2 3.
+    rewrite (nth_blocks h (Z.to_nat T) J dY 0) by (try (intros o; specialize (Hh o); unfold zlen in Hh; lia); unfold i, j; lia).
+    rewrite (nth_blocks (fun pj => map (f (G (fst pj))) (h (snd pj))) (Z.to_nat T) (enumerate J) dW (0, 0)).
+    + unfold enumerate. rewrite combine_nth_lt by (try (pose proof (zseq_length (zlen J) (zlen_nonneg J)); unfold zlen in *; unfold j; lia); unfold j; lia).
+      cbn [fst snd]. unfold j. rewrite nth_zseq by (unfold zlen; lia).
+      rewrite (nth_map_in _ _ i dW dY) by (specialize (Hh (nth (Z.to_nat (Z.of_nat k / T)) J 0)); unfold i; lia).
+      reflexivity.
+    + intros o. rewrite map_length. specialize (Hh (snd o)). unfold zlen in Hh. lia.
+    + unfold i. lia.
+    + unfold j. lia.
+Qed.
+
+Section MincThm.
+Context {F R : Type}.
+Variable scale : F -> list Z -> R.
+Variable dF : F.
+Variable dR : R.
+
+Definition minc_hyps (shape : list Z) (nscales : Z) (elems : list (list Z)) (facs : list F) (ix : list idx) c : Prop :=
+  canonical_slicers true ix shape = Ok c /\ ix_valid shape c /\ zlen elems = prod shape
+  /\ 0 <= nscales < zlen shape /\ zlen facs = prod (firstn (Z.to_nat nscales) shape).
+
+Lemma minc_full_scalar shape (elems : list (list Z)) (facs : list F) : Forall (fun n => 0 <= n) shape ->
+  zlen elems = prod shape -> minc_full scale dF shape 0 elems facs = map (scale (nth 0 facs dF)) elems.
+Proof.
+  intros Hs Hl. unfold minc_full. cbn [Z.to_nat skipn].
+  assert (Hrep : elems = map (fun o => nth (Z.to_nat o) elems []) (zseq (prod shape)))
+    by (rewrite <- Hl; symmetry; apply map_nth_zseq).
+  rewrite Hrep. rewrite zipw_map, map_map. apply map_ext_in. intros o Ho.
+  apply zseq_In in Ho. rewrite Z.div_small by lia. reflexivity.
+Qed.
+
+Theorem minc_getitem_spec shape nscales elems facs ix c :
+  minc_hyps shape nscales elems facs ix c ->
+  minc_getitem scale dF shape nscales elems facs ix
+  = Ok (np_index dR OrdC shape c (minc_full scale dF shape nscales elems facs)).
+Proof.
+  intros (Hc & Hv & Hl & Hns & Hfl). unfold minc_getitem. rewrite Hc. cbn [bind].
+  pose proof (ix_valid_shape_nonneg c shape Hv) as Hs.
+  destruct (np_index [] OrdC shape c elems) as [s raw0] eqn:Eraw.
+  assert (Es : s = rev (np_shape (rev shape) (rev c))).
+  { cbn [np_index] in Eraw. unfold np_index_F in Eraw. inversion Eraw. reflexivity. }
+  destruct (nscales =? 0) eqn:E0.
+  - (* scalar image-min/-max *)
+    assert (nscales = 0) by lia. subst nscales. rewrite minc_full_scalar by assumption.
+    rewrite (np_index_map (scale (nth 0 facs dF)) [] dR) by assumption. rewrite Eraw. reflexivity.
+  - cbn [bind].
+    set (k := Z.to_nat nscales).
+    assert (Hk : (k < length shape)%nat) by (unfold k, zlen in *; lia).
+    assert (Esh : shape = firstn k shape ++ skipn k shape) by (symmetry; apply firstn_skipn).
+    destruct (skipn k shape) as [|n trail'] eqn:Etr.
+    { exfalso. apply (f_equal (@length Z)) in Etr. rewrite skipn_length in Etr. cbn in Etr. lia. }
+    set (lead := firstn k shape) in *.
+    assert (Hll : length lead = k) by (unfold lead; rewrite firstn_length; lia).
+    rewrite Esh in Hv.
+    destruct (split_real_gen c lead n trail' Hv) as (pre & x & post & Hsp & Hce & Hp & Hq & Hx).
+    rewrite Hll in Hsp. rewrite Hsp.
+    set (trail := n :: trail') in *. set (rest := filter (fun y => negb (is_cint y)) (x :: post)).
+    (* F-order view: A = reversed trailing axes (fast), B = reversed leading axes (slow) *)
+    set (A := rev trail). set (B := rev lead). set (ixA := rev (x :: post)). set (ixB := rev pre).
+    assert (HA : ix_valid A ixA) by (apply ix_valid_rev; exact Hq).
+    assert (HB : ix_valid B ixB) by (apply ix_valid_rev; exact Hp).
+    assert (Erevs : rev shape = A ++ B) by (rewrite Esh; unfold A, B; apply rev_app_distr).
+    assert (Erevc : rev c = ixA ++ ixB) by (rewrite Hce; unfold ixA, ixB; rewrite rev_app_distr; reflexivity).
+    assert (HPA : prod A = prod trail) by (unfold A; apply prod_rev).
+    assert (Hm : prod (skipn (Z.to_nat nscales) shape) = prod A) by (fold k; rewrite Etr; now rewrite HPA).
+    set (OA := offs A ixA 1). set (OB := offs B ixB 1).
+    assert (HOA : forall oa, In oa OA -> 0 <= oa < prod A) by (intros oa Ho; now apply (offs_range ixA A oa HA)).
+    assert (HOB : forall ob, In ob OB -> 0 <= ob < prod B) by (intros ob Ho; now apply (offs_range ixB B ob HB)).
+    assert (HpB : prod B = zlen facs) by (unfold B; rewrite prod_rev; unfold lead, k; now rewrite Hfl).
+    assert (Hprod : prod shape = prod A * prod B).
+    { rewrite <- (prod_rev shape), Erevs, prod_app. reflexivity. }
+    (* the sliced raw data *)
+    assert (Eraw0 : raw0 = flat_map (fun ob => map (fun oa => nth (Z.to_nat (oa + prod A * ob)) elems []) OA) OB).
+    { cbn [np_index] in Eraw. rewrite Erevs, Erevc in Eraw.
+      pose proof (np_index_F_split [] A B ixA ixB elems HA) as H.
+      destruct (np_index_F [] (A ++ B) (ixA ++ ixB) elems) as [s0 e0]. cbn [snd] in H.
+      injection Eraw as _ He. rewrite <- He. exact H. }
+    (* the sliced factors *)
+    set (i_slicer := pre ++ map (fun _ => CNew) rest).
+    destruct (np_index dF OrdC lead i_slicer facs) as [fs fsel] eqn:Efac.
+    assert (Erevi : rev i_slicer = map (fun _ => CNew) (rev rest) ++ ixB)
+      by (unfold i_slicer, ixB; rewrite rev_app_distr, rev_map_const; reflexivity).
+    assert (Efsel : fsel = map (fun ob => nth (Z.to_nat ob) facs dF) OB /\ fs = rev (np_shape B ixB) ++ repeat 1 (length rest)).
+    { cbn [np_index] in Efac. fold B in Efac. rewrite Erevi in Efac. unfold np_index_F in Efac.
+      rewrite offs_leading_new, np_shape_leading_new in Efac. inversion Efac. split; [reflexivity|].
+      rewrite rev_app_distr, rev_repeat, rev_length. reflexivity. }
+    destruct Efsel as [Efsel Efs].
+    assert (Es' : s = rev (np_shape B ixB) ++ rev (np_shape A ixA)).
+    { rewrite Es, Erevs, Erevc, np_shape_app by assumption. apply rev_app_distr. }
+    assert (Hlr : length rest = length (np_shape A ixA)).
+    { rewrite np_shape_length. unfold ixA, rest. now rewrite filter_rev_length. }
+    assert (Hnlead : (length s - length rest)%nat = length (rev (np_shape B ixB))).
+    { rewrite Es', app_length, Hlr, !rev_length. lia. }
+    rewrite Hnlead.
+    rewrite Efs, Es'. rewrite !firstn_app, !Nat.sub_diag, !firstn_all. cbn [firstn]. rewrite zlist_eqb_refl.
+    replace (Nat.eqb (length (rev (np_shape B ixB) ++ repeat 1 (length rest))) (length (rev (np_shape B ixB) ++ rev (np_shape A ixA))))
+      with true by (symmetry; apply Nat.eqb_eq; rewrite !app_length, repeat_length, Hlr, !rev_length; reflexivity).
+    cbn [negb orb].
+    rewrite skipn_app, Nat.sub_diag, skipn_all. cbn [skipn app].
+    assert (HT : prod (rev (np_shape A ixA)) = zlen OA) by (rewrite prod_rev; symmetry; now apply offs_length).
+    assert (HPs : prod (rev (np_shape B ixB) ++ rev (np_shape A ixA)) = zlen OA * zlen OB).
+    { rewrite prod_app, !prod_rev. rewrite <- (offs_length ixA A 1 HA), <- (offs_length ixB B 1 HB). unfold OA, OB. lia. }
+    rewrite HT, HPs. f_equal.
+    (* the spec side *)
+    cbn [np_index]. rewrite Erevs, Erevc.
+    pose proof (np_index_F_split dR A B ixA ixB (minc_full scale dF shape nscales elems facs) HA) as Hspec.
+    unfold np_index_F at 1. unfold np_index_F in Hspec. cbn [snd] in Hspec. cbn [fst snd].
+    rewrite <- Erevs, <- Erevc at 1. rewrite <- Es. rewrite Es'. f_equal.
+    rewrite Hspec. clear Hspec. fold OA OB.
+    rewrite Eraw0, Efsel.
+    rewrite (map_ext_in _ (fun p => nth (Z.to_nat (nth (Z.to_nat (p / zlen OA)) OB 0)) facs dF)).
+    2:{ intros p Hp'. apply zseq_In in Hp'. pose proof (zlen_nonneg OA). pose proof (zlen_nonneg OB).
+        assert (0 < zlen OA) by nia.
+        assert (0 <= p / zlen OA < zlen OB) by (split; [apply Z.div_pos; lia|apply Z.div_lt_upper_bound; lia]).
+        rewrite (nth_map_in (fun ob => nth (Z.to_nat ob) facs dF) OB _ dF 0) by (unfold zlen in *; lia). reflexivity. }
+    rewrite (zipw_blocks scale (fun pb => nth (Z.to_nat (nth (Z.to_nat pb) OB 0)) facs dF)
+               (fun ob => map (fun oa => nth (Z.to_nat (oa + prod A * ob)) elems []) OA) OB (zlen OA) dF [] dR)
+      by (try apply zlen_nonneg; intros; apply zlen_map).
+    (* enumerate OB: fst is the position, snd the offset *)
+    assert (Hen : forall pj, In pj (enumerate OB) -> nth (Z.to_nat (fst pj)) OB 0 = snd pj /\ In (snd pj) OB).
+    { intros [pb ob] Hin. unfold enumerate in Hin. cbn [fst snd].
+      destruct (In_nth _ _ (0, 0) Hin) as (t & Ht & Hnth).
+      rewrite combine_length in Ht. pose proof (zseq_length (zlen OB) (zlen_nonneg OB)) as Hzl. unfold zlen in Hzl.
+      rewrite combine_nth_lt in Hnth by lia. inversion Hnth as [[H1 H2]].
+      rewrite <- (Nat2Z.id t) at 1. rewrite nth_zseq by (unfold zlen; lia). rewrite Nat2Z.id.
+      split; [reflexivity|]. apply nth_In. lia. }
+    rewrite (flat_map_ext_in' _ (fun pj => map (fun oa => nth (Z.to_nat (oa + prod A * snd pj)) (minc_full scale dF shape nscales elems facs) dR) OA)).
+    + unfold enumerate. clear Hen.
+      assert (G : forall (X : list Z) (Y : list Z) (g : Z -> list R), length X = length Y ->
+                  flat_map (fun pj => g (snd pj)) (combine X Y) = flat_map g Y).
+      { induction X as [|x0 X IHX]; intros [|y0 Y] g Hxy; try discriminate; [reflexivity|].
+        cbn [combine flat_map snd]. f_equal. apply IHX. cbn in Hxy. lia. }
+      apply (G _ _ (fun ob => map (fun oa => nth (Z.to_nat (oa + prod A * ob)) (minc_full scale dF shape nscales elems facs) dR) OA)).
+      pose proof (zseq_length (zlen OB) (zlen_nonneg OB)). unfold zlen in *. lia.
+    + intros pj Hin. destruct (Hen pj Hin) as [E1 E2]. rewrite E1. rewrite map_map.
+      apply map_ext_in. intros oa Hoa. specialize (HOA oa Hoa). specialize (HOB _ E2).
+      unfold minc_full. rewrite Hm.
+      assert (Hrange : 0 <= oa + prod A * snd pj < prod shape) by nia.
+      symmetry. rewrite (nth_zipw scale _ _ _ dF [] dR).
+      * f_equal. rewrite (nth_map_in _ (zseq (prod shape)) _ dF 0) by (pose proof (zseq_length (prod shape) ltac:(lia)); lia).
+        rewrite nth_zseq by lia. f_equal. f_equal.
+        rewrite Z.mul_comm, Z.div_add by lia. rewrite Z.div_small by lia. lia.
+      * rewrite map_length. pose proof (zseq_length (prod shape) ltac:(lia)). lia.
+      * unfold zlen in Hl. lia.
+Qed.
+End MincThm.
 
 (* ====================================================================================
    Part 11: statements used by Props.v *)
